@@ -19,6 +19,8 @@
 (*  [op |-> "notify", t0, t1, ret]     tracker.NotifyOfChange()             *)
 (*  [op |-> "unlock", t0, t1, ret, before, after]  TrackingLock.Unlock(),   *)
 (*      with the index read while holding the lock and right after Unlock   *)
+(*  [op |-> "unlockq", t0, t1, ret]    Lock + UnlockWithoutNotify: not a    *)
+(*      notification, so the index must not move because of it              *)
 (* Every call runs under a watchdog; ret = FALSE: not back at t1.           *)
 (*  [op |-> "terminate", t0, t1, ret]                                       *)
 (***************************************************************************)
@@ -73,7 +75,7 @@ CaseFails(i, r) ==
 WellFormed(r) ==
   /\ Has(r, "ev") /\ r.ev = "TrackerCase" /\ Has(r, "calls")
   /\ \A k \in DOMAIN r.calls :
-       /\ r.calls[k].op \in {"wait", "notify", "unlock", "terminate"}
+       /\ r.calls[k].op \in {"wait", "notify", "unlock", "unlockq", "terminate"}
        /\ r.calls[k].t0 <= r.calls[k].t1
 
 TInit == l = 1 /\ fails = <<>> /\ nwaits = 0 /\ nblocked = 0 /\ done = FALSE
